@@ -146,9 +146,16 @@ bloc_ctx_store_variable(bloc_context *ctx, const bloc_symbol *symbol, bloc_value
 {
   try
   {
-    reinterpret_cast<bloc::Context*>(ctx)->storeVariable(
-            reinterpret_cast<const bloc::Symbol*>(symbol)->id(),
-            std::move(*reinterpret_cast<bloc::Value*>(v)));
+    bloc::Value * val = reinterpret_cast<bloc::Value*>(v);
+    const bloc::Type& type = val->type();
+    /* a dynamically allocated payload is moved, otherwise the value is copied */
+    if (type.level() == 0 && (type == bloc::Type::BOOLEAN ||
+            type == bloc::Type::INTEGER || type == bloc::Type::NUMERIC))
+      reinterpret_cast<bloc::Context*>(ctx)->storeVariable(
+              reinterpret_cast<const bloc::Symbol*>(symbol)->id(), val->clone());
+    else
+      reinterpret_cast<bloc::Context*>(ctx)->storeVariable(
+              reinterpret_cast<const bloc::Symbol*>(symbol)->id(), std::move(*val));
     return bloc_true;
   }
   catch (bloc::RuntimeError& re)
